@@ -14,7 +14,7 @@ NA = [
 # id -> (engine, category, level text, level note, technique, design ref)
 CHECKS = {
  "C01": ("HIST", "exploration",
-   "Seeded search over configuration histories (levels, run-time level registrations, sticky process-wide debug mode, production/testing process mode), each followed by an exhaustive sweep of every logger x severity x public entry point in the reached state; every call is observed at simulated destinations and compared with the admission rule of the statement and with every other entry point. Sampling of histories, exhaustive within a reached state.",
+   "Seeded search over configuration histories (levels, run-time level registrations, sticky process-wide debug mode, production/testing process mode), with questions asked in the middle of the history and asked again later (an answer must not outlive the state it was given in), each history followed by an exhaustive sweep of every logger x severity x public entry point in the reached state; every call is observed at simulated destinations and compared with the admission rule of the statement and with every other entry point. Sampling of histories, exhaustive within a reached state.",
    "Trusted: the overlay rewriter, the world interpreter, Level() getter as the logger's level (its agreement with the history is C10's business), is.DebugMode() as the debug-mode state. OK/Success/Fail and non-ordinal logger levels are checked for Off/Always and cross-entry-point consistency only (the statement does not give their class).",
    "deterministic simulation: seeded op histories in one world process per episode, I/O observed at simulated destinations, reference admission model", "DESIGN.md §5 C01"),
  "C03": ("HIST+PROC", "exploration",
@@ -30,11 +30,11 @@ CHECKS = {
    "In testing-mode worlds nothing is claimed about the initial default level (learned from the first snapshot). UTC mode and layout are used with explicit arguments only.",
    "deterministic simulation: histories vs reference tree, simulated clock granularity, map-iteration-order tape", "DESIGN.md §5 C10"),
  "C11": ("HIST", "exploration",
-   "Complete enumeration of all mode-call sequences up to length 3 (quick) / 4 (thorough) over a parent and child, plus seeded longer sequences with With*/New options over up to 4 loggers; getters of every logger after every op and the byte shape of a probe per logger against the three-state model.",
+   "Complete enumeration of all mode-call sequences up to length 3 (quick) / 4 (thorough) over a parent and child, plus seeded longer sequences with With*/New options over up to 4 loggers; getters of every logger after every op, probe records between the mode calls and one per logger at the end, whose bytes must have the shape of the state (a logfmt record must be a well-formed key=value line from end to end) against the three-state model.",
    "Zero boolean arguments are read as true; several booleans are only generated with equal values.",
    "deterministic simulation (history refinement against a 3-state model; exhaustive core)", "DESIGN.md §5 C11"),
  "C15": ("HIST+PROC", "exploration",
-   "Seeded handler-derivation histories and bridge tables: records enter through a real log/slog.Logger, through explicit slog.Records given to Enabled+Handle, through log.Logger on the bridge and through Entry.Log; emitted-once, severity name, message, record time and attributes are decoded at the simulated destination of the underlying logger; a third of the production worlds run with interrupts enabled so that a wrongly terminating level mapping kills the world process.",
+   "Seeded handler-derivation histories and bridge tables: records enter through a real log/slog.Logger, through explicit slog.Records given to Enabled+Handle, through log.Logger on the bridge and through Entry.Log; emitted-once, severity name, message, record time and attributes are decoded at the simulated destination of the underlying logger; after the first round of answers the underlying logger's level makes excursions (through Debug, which switches the process-wide debug mode on) and every handler is asked again; a third of the production worlds run with interrupts enabled so that a wrongly terminating level mapping kills the world process.",
    "Attribute kinds bool/float/duration/time are checked by key presence only (their rendering is C04/C05); duplicate keys are not generated (C07).",
    "deterministic simulation: derivation histories, I/O counts at simulated destinations, process death as observation", "DESIGN.md §5 C15"),
  "C16": ("HIST", "exploration",
@@ -62,16 +62,16 @@ CHECKS.update({
    "Preemption points are callback boundaries (all episodes) and function entries of package slog (fine-world episodes); a switch between two statements without a call in between is reachable only for the race detector. The race detector keeps a bounded access history (race episodes are short). In the race world the real sync.Pool runs, so pooled-object choice is not on the tape there (replay retries up to 8 times).",
    "deterministic simulation: seeded scheduler over real goroutines, schedule tape, destination stalls, happens-before race detection made schedule-deterministic", "DESIGN.md §5 C08, §2.4"),
  "C09": ("CONC", "exploration",
-   "The same probe call (fixed timestamp through WriteThru, fixed call site) is issued in the pristine world process and again after seeded histories of 0-200 other calls on 1-4 tasks; the pool tape decides whether the probe is formatted in a fresh, the most recently recycled or an older context; payloads must be byte-identical. Histories include records from the probe's own call site, arbitrary attribute lists (every value kind, reserved key names, stack-carrying errors) and multi-line messages.",
-   "No configuration change between the two probes (generator invariant, enforced for minimised scenarios).",
+   "The same probe call (fixed timestamp through WriteThru, fixed call site) is issued in the pristine world process and again after seeded histories of 0-200 other calls on 1-4 tasks; the pool tape decides whether the probe is formatted in a fresh, the most recently recycled or an older context; payloads must be byte-identical. Histories include records from the probe's own call site, arbitrary attribute lists (every value kind, reserved key names, stack-carrying errors), multi-line messages, custom levels registered with one or two colours and instants next to the probe's own (same instant in another zone, same second, +-1 h ...). Every sixth episode compares twin loggers: made and configured by the same calls, one of them printing records between the configuration calls.",
+   "No configuration change between the two probes; in twin episodes both loggers see the same configuration calls (generator invariants, enforced for minimised scenarios).",
    "deterministic simulation: histories x schedules x pool-recycling tape, byte equality", "DESIGN.md §5 C09"),
- "C12": ("PROC", "fault_enumeration",
-   "Complete enumeration of the termination matrix (entry point x flags x process mode x admitted x format = 672 cells), each in its own world process whose death is the crash point: the record must be complete in a real file read after the process is gone, a Panic must be recoverable with the message as value, a Fatal must exit with status 253 with nothing after the record, every other cell and every other severity must run on to the end marker. A third of the seed variants put a permanently failing member in front of the durable one in the error device (crash point x fault), and some cell calls carry 60-2500 attributes.",
+ "C12": ("PROC+CONC", "fault_enumeration",
+   "Complete enumeration of the termination matrix (entry point x flags x process mode x admitted x format = 672 cells), each in its own world process whose death is the crash point: the record must be complete in a real file read after the process is gone, a Panic must be recoverable with the message as value, a Fatal must exit with status 253 with nothing after the record, every other cell and every other severity must run on to the end marker. A third of the seed variants put a permanently failing member in front of the durable one in the error device (crash point x fault), a quarter make the terminating call while calls of another goroutine on another logger are in flight under the seeded scheduler (the cell must terminate by itself, the other calls must neither panic nor exit), and some cell calls carry 60-2500 attributes.",
    "Process mode is spoofed through argv0/-test.* exactly as hedzr/is reads it. Messages, attributes and surrounding calls are sampled per seed.",
    "deterministic simulation: one OS process per cell, process death as crash point, durable destination read after death", "DESIGN.md §5 C12"),
  "C13": ("CONC", "fault_enumeration",
    "Exhaustive core: every succeed/fail assignment to the first K (8 quick, 10 thorough) Write attempts of each listed configuration, plus sampled longer fault sequences of all kinds (error, partial write with error, short write without error, stall), also on the diagnostic's own write and under 2-4 concurrent caller tasks, each followed by a fault-free tail; per call: normal return, whole record exactly once on every non-failing selected destination, at most one diagnostic and only at the warning destinations, attempt budget; tail: full delivery (no sticky state).",
-   "Faults are attached to write attempts, so they always land inside a call. A short write without error is not a failure. The package defaults (fd 1/2) are not part of these configurations.",
+   "Faults are attached to write attempts, so they always land inside a call. After a short write without error a diagnostic is allowed, never required (the statement does not say whether that is a failed Write). The package defaults (fd 1/2) are not part of these configurations.",
    "deterministic simulation with fault injection at simulated destinations: enumerated fault assignments + seeded fault sequences", "DESIGN.md §5 C13"),
  "C19": ("BUF", "exploration",
    "Seeded histories of the 20 listed methods on a PrintCtx and on bytes.Buffer (the reference model, run in lock-step in the same world) with boundary arguments and fault-injecting io.Reader/io.Writer peers given an identical fault script; after every call the results, error identity, panic and remaining contents must agree.",
